@@ -286,7 +286,14 @@ Definition step_emclose (st : state) (j : nat) : option (option label * state) :
     end
   end.
 
-(* ---- Subscribe ------------------------------------------------------------ *)
+(* ---- Subscribe ------------------------------------------------------------
+   A REJECTED Subscribe (some entry of the type list is not a pointer / is nil) is the
+   subscription with styps = Some []: the code validates every entry in a loop of its own
+   BEFORE the loop that wires the subscription to the nodes, so such a call touches no
+   node, no lock and no channel: S0 -> SRet -> SDone, returning code 1 (theorem
+   c15_rejected_subscribe_is_noop).  No subscription object is handed out: the harness
+   issues neither a receive nor a Close for it (as for receives, the model does not
+   restrict what the environment may issue). *)
 Definition step_sub (st : state) (s : nat) : option (option label * state) :=
   match nth_error (subs st) s with
   | None => None
@@ -327,7 +334,8 @@ Definition step_sub (st : state) (s : nat) : option (option label * state) :=
     | SW3, _ => if Nat.eqb (rdrs w) 0                                     (* readers gone: append; Unlock *)
                 then tau (set_sub (set_wild st (mkWild None 0 (wsinks w ++ [s]) (nsinks w))) s (c_spc c SRet))
                 else None
-    | SRet, _ => vis (LRet (TSub s) 0) (set_sub st s (c_spc c SDone))
+    | SRet, _ =>                                             (* return: `out, nil`, or the error of the up-front validation loop *)
+        vis (LRet (TSub s) (match styps c with Some [] => 1%Z | _ => 0%Z end)) (set_sub st s (c_spc c SDone))
     | _, _ => None
     end
   end.
